@@ -158,10 +158,20 @@ Definition returned_of (dbi : Z) (parts : list frame) (rep : frame) : list elem 
       else []
   | _ => []
   end.
-(** the queued commands of an EXEC against the slots of its reply *)
-Fixpoint zip_effects (f : list frame -> frame -> list elem) (q : list (list frame)) (reps : list frame) : list elem :=
+(** the queued commands of an EXEC against the slots of its reply; a queued SELECT answered
+    OK selected the database the commands after it run in (1ecc022) *)
+Definition is_ok (rep : frame) : bool := match rep with FSimple t => beq t (bs "OK") | _ => false end.
+Definition next_db (dbi : Z) (parts : list frame) (rep : frame) : Z :=
+  match parts with
+  | [FBulk nm; FBulk a] =>
+      if beq (upper nm) (bs "SELECT") && is_ok rep
+      then match parse_usize a with Some n => n | None => dbi end
+      else dbi
+  | _ => dbi
+  end.
+Fixpoint zip_effects (f : Z -> list frame -> frame -> list elem) (dbi : Z) (q : list (list frame)) (reps : list frame) : list elem :=
   match q, reps with
-  | parts :: q', r :: reps' => f parts r ++ zip_effects f q' reps'
+  | parts :: q', r :: reps' => f dbi parts r ++ zip_effects f (next_db dbi parts r) q' reps'
   | _, _ => []
   end.
 Definition frame_effect (f : Z -> list frame -> frame -> list elem) (s : server) (c : Z) (req rep : frame) : list elem :=
@@ -169,7 +179,7 @@ Definition frame_effect (f : Z -> list frame -> frame -> list elem) (s : server)
   | Some cn, FArray (FBulk nm :: rest) =>
       if c_intx cn then
         if beq (upper nm) (bs "EXEC") then
-          match rep with FArray reps => zip_effects (f (c_db cn)) (c_queue cn) reps | _ => [] end
+          match rep with FArray reps => zip_effects f (c_db cn) (c_queue cn) reps | _ => [] end
         else []                                       (* queued, or transaction control *)
       else f (c_db cn) (FBulk nm :: rest) rep
   | _, _ => []
